@@ -283,7 +283,12 @@ def gen_visit(r, url, *, listing=None, plain=False, mutate=None, twin=True):
     data = bytes(r.randrange(256) for _ in range(dn)) if r.randrange(3) else (b'-rw-r--r-- 1 u g 5 Jan 01 2015 f\r\n' * (dn // 30))
     # a data path that stalls (longer than any grace period a client might apply) after part of the data
     stall = {'after': r.randrange(0, max(1, len(data))), 'seconds': r.choice([6, 30, 600])} if (len(data) > 1 and r.randrange(8) == 0) else None
+    # ... and a control connection on which the LAST reply of the script (the verdict on the transfer, usually) arrives late
+    ctrl_stall = None
+    if len(replies) > 1 and r.randrange(6) == 0:
+        ctrl_stall = {'after': len(b''.join(replies[:-1])), 'seconds': r.choice([15, 60, 900]), 'hold': True}
     return {'kind': 'visit', 'url': url, 'req_user': req_user, 'req_pass': req_pass, 'restart': restart, 'stall': stall,
+            'ctrl_stall': ctrl_stall,
             'listing': listing, 'fresh': fresh, 'cached': cached, 'limit': LIMIT,
             'ctrl': ctrl.hex(), 'ctrl_segs': r.choice(_seglists(r, len(ctrl), 3)),
             'data': data.hex(), 'data_segs': r.choice(_seglists(r, len(data), 3)) if data else [],
